@@ -14,6 +14,10 @@ TOL = {  # solver family -> (held, violated)
 }
 
 
+# mechanisms recorded as known findings of C01 (known_findings.json): other checks count them and do not judge them
+C01_KNOWN_KEYS = ("identity_open_in_span_of_lmi_entry_symmetries", "identity_open_constraint_object_sent_twice")
+
+
 def solver_family(rec):
     name = None
     if rec["inner"]:
@@ -190,6 +194,17 @@ def certificate_check(rec, ret_value, mode):
                                          "combination of the entry equalities T_ij = T_ji of an LMI that is not "
                                          "symmetric as written (their multipliers are never exposed)" % max(dG, dF),
                                  "defect": max(dG, dF), "scale": scale, "grade": "violated"})
+    # one Constraint object registered twice is sent twice (two multipliers in the solver) but can hold only one: when the
+    # identity is open on such a model the mechanism is that one, whatever else may be wrong (known finding, keyed by it)
+    ids_c = [id(o) for k, o in sent if k == "c"]
+    twice = len(ids_c) != len(set(ids_c))
+    info["constraint_object_sent_twice"] = twice
+    if twice and not open_in_span and _grade(max(dG, dF), scale, fam) == "violated":
+        findings.append({"key": "identity_open_constraint_object_sent_twice",
+                         "what": "the same Constraint object was registered twice: it is sent twice and the solver holds two multipliers, "
+                                 "the object exposes one; the identity is open by %.3e" % max(dG, dF),
+                         "defect": max(dG, dF), "scale": scale, "grade": "violated"})
+        open_in_span = True
     if not open_in_span:
         add("identity_gram", "certificate identity leaves a Gram-matrix term of size %.3e" % dG, dG, scale)
         add("identity_fvalues", "certificate identity leaves a function-value term of size %.3e" % dF, dF, scale)
